@@ -243,7 +243,9 @@ func c08Run(r *run.Runner, c c08Case) {
 		pending = st
 		ex := w.Do(sim.ReqSpec{URL: url, Header: hdr("chain")})
 		inflightVariant := ""
-		if st.Mode == "swr" && c.Vary && len(ex.BgCalls()) == 1 {
+		if st.Mode == "swr" && c.Vary && len(ex.BgCalls()) == 1 && (si+c.NOther)%2 == 0 {
+			// (only on every other step: a foreground store also rewrites the index
+			// in the matcher's order and would hide index-position mistakes)
 			// while the background validation is in flight, a new variant is stored
 			time.Sleep(time.Second)
 			inflightVariant = fmt.Sprintf("o-inflight-%d", si)
@@ -365,6 +367,15 @@ func c08Run(r *run.Runner, c c08Case) {
 		curL = expectL
 		// the age base shortens the remaining lifetime for the next wait
 		lastValidated = validatedAt.Add(-ageBase)
+	}
+	// at the end every other variant ever stored (they are long-lived) must still be served from the store
+	for v, tok := range otherTok {
+		ov := w.Do(sim.ReqSpec{URL: url, Header: hdr(v)})
+		r.Count("final_variant_checks", 1)
+		anyChecked = true
+		if len(ov.Calls()) > 0 || ov.BodySerial() != tok {
+			r.Violation("other-variant-lost", "final-sweep", fmt.Sprintf("variant %s (token %s) is no longer served from the store at the end of the chain; %s", v, tok, ov.Summary()), obsOf())
+		}
 	}
 	if anyChecked {
 		b := fmt.Sprintf("%+v", c)
